@@ -20,7 +20,7 @@ import (
 
 // C24 (call-site part): an always-available stream plays a user-supplied MP4 file whose track time scale differs from
 // the 90 kHz clock and whose samples carry composition offsets (B-frames). Every unit's timestamp must be the exact
-// conversion of the MP4 presentation time (decode time + offset) — judged on differences to the first unit, since the
+// conversion of the MP4 presentation time (decode time + offset) — judged on differences to the first observed unit (the reader may attach after the first samples), since the
 // stream may add a constant.
 func TestVerifC24Offline(t *testing.T) {
 	r := vmon.Begin(t, "C24", "exploration")
@@ -145,14 +145,23 @@ func c24OfflineFile(t *testing.T, r *vmon.Run, dir string, fi int, timeScale uin
 		x := new(big.Int).Mul(big.NewInt(mp4), big.NewInt(90000))
 		return x.Quo(x, big.NewInt(int64(timeScale))).Int64()
 	}
+	// the reader may attach after the first samples were played: start where the first observed unit is
 	var dts int64
+	k0 := got[0].idx
+	if k0 < 0 || k0 >= len(durs) {
+		r.Violation("offline-file-sample-order", fmt.Sprintf("always-available MP4 file: first observed unit carries sample %d of %d", k0, len(durs)), nil)
+		return
+	}
+	for i := 0; i < k0; i++ {
+		dts += int64(durs[i])
+	}
 	var e0 int64
 	key := fmt.Sprintf("offline|%d|%d|%v|%v|%v", fi, timeScale, durs, offs, h265)
 	r.Eval(key)
 	for k := 0; k < want; k++ {
-		i := k % len(durs)
+		i := (k0 + k) % len(durs)
 		if got[k].idx != i {
-			r.Violation("offline-file-sample-order", fmt.Sprintf("always-available MP4 file (time scale %d): unit %d carries sample %d, expected %d", timeScale, k, got[k].idx, i), nil)
+			r.Violation("offline-file-sample-order", fmt.Sprintf("always-available MP4 file (time scale %d): observed unit %d carries sample %d, expected %d (first observed: sample %d)", timeScale, k, got[k].idx, i, k0), nil)
 			return
 		}
 		e := exact(dts + int64(offs[i]))
